@@ -2,6 +2,7 @@ INIT Init
 NEXT Next
 CONSTANT Mode = "model"
 CONSTANT Depth = 1
+CONSTANT Variants = {1, 2, 3, 4}
 CONSTANT LenW = 4
 CONSTANT HashW = 2
 CONSTANT G1W = 2
